@@ -31,6 +31,7 @@ MIN_REACH = {
     "contract_evals_rs_update": {"quick": 100000, "thorough": 3000000},
     "contract_evals_rc_update": {"quick": 30000, "thorough": 500000},
     "estimate_runs": {"quick": 300, "thorough": 10000},
+    "matrix_readouts_judged": {"quick": 200, "thorough": 3000},
     "ill_conditioned_samples": {"quick": 100, "thorough": 2000},
 }
 TIME_BUDGET = {"quick": 300, "thorough": 3000}
@@ -126,6 +127,7 @@ def run_case(ctx, case):
         for seq in orders:
             rs = U.RunningStatistics()
             i = 0
+            reads = 0
             while i < len(seq):
                 if case["feed"] == "single" or (case["feed"] == "mixed" and rng.random() < 0.5):
                     rs.update(seq[i])
@@ -135,6 +137,15 @@ def run_case(ctx, case):
                     it = seq[i:j] if rng.random() < 0.5 else iter(seq[i:j])
                     rs.update_from_it(it)
                     i = j
+                if i < len(seq) and reads < 3 and rng.random() < 0.15:
+                    # read the accumulator between feeds: it must describe exactly the prefix fed so far
+                    reads += 1
+                    shp = contracts.Shadow()
+                    for x in seq[:i]:
+                        shp.add(x)
+                    for msg in contracts.judge_running_statistics(rs, shp):
+                        ctx.violation(case, "after %d of %d samples: %s" % (i, len(seq), msg), dict(sig, oracle="prefix", quantity=msg.split(" ")[0]))
+                    ctx.count("prefix_readouts_judged")
             finals.append((rs.count, rs.mean, rs.var, rs.std, rs.err))
             # final state against an independently computed exact reference (not the shadow)
             fr = [Fraction(x) for x in seq]
@@ -183,32 +194,57 @@ def run_case(ctx, case):
             summary = (rc.count, rc.covar if rc.count else None)
         else:
             rcm = U.RunningCovarianceMatrix(k)
-            if case["feed"] == "single":
-                for row in zip(*series):
-                    rcm.update(*row)
-            else:
-                h = n // 3
-                rcm.update_from_it(*[s[:h] for s in series])
-                rcm.update_from_it(*[s[h:] for s in series])
             bad = []
-            if rcm.count != n:
-                bad.append("matrix count %r != %d" % (rcm.count, n))
-            cm = rcm.covar_matrix
-            scm = rcm.sample_covar_matrix if n > 1 else None
-            for a in range(k):
-                for b in range(k):
-                    sh = contracts.Shadow2()
-                    for x, y in zip(series[a], series[b]):
-                        sh.add(x, y)
-                    g = 1.0 + math.sqrt(n)
-                    tol = contracts.K_COV * g * contracts.EPS * (
-                        sh.ax * contracts.fsqrt(sh.vary) + sh.ay * contracts.fsqrt(sh.varx) + contracts.EPS * sh.ax * sh.ay) + 5e-324
-                    if not abs(cm[a, b] - float(sh.cov)) <= tol:
-                        bad.append("covar_matrix[%d,%d]=%r vs exact %r" % (a, b, cm[a, b], float(sh.cov)))
-                    if scm is not None and not abs(scm[a, b] - float(sh.cov) * n / (n - 1)) <= tol * n / (n - 1) * 1.01:
-                        bad.append("sample_covar_matrix[%d,%d]=%r vs exact %r" % (a, b, scm[a, b], float(sh.cov) * n / (n - 1)))
-                    if cm[a, b] != cm[b, a]:
-                        bad.append("covar_matrix not symmetric at %d,%d" % (a, b))
+
+            def judge_prefix(m):
+                """Every matrix read-out must describe exactly the first m samples (read-outs happen between feeds too:
+                a long-lived accumulator is read, fed more, and read again)."""
+                if rcm.count != m:
+                    bad.append("matrix count %r != %d" % (rcm.count, m))
+                cm = rcm.covar_matrix
+                scm = rcm.sample_covar_matrix if m > 1 else None
+                for a in range(k):
+                    for b in range(k):
+                        sh = contracts.Shadow2()
+                        for x, y in zip(series[a][:m], series[b][:m]):
+                            sh.add(x, y)
+                        g = 1.0 + math.sqrt(m)
+                        tol = contracts.K_COV * g * contracts.EPS * (
+                            sh.ax * contracts.fsqrt(sh.vary) + sh.ay * contracts.fsqrt(sh.varx) + contracts.EPS * sh.ax * sh.ay) + 5e-324
+                        if not abs(cm[a, b] - float(sh.cov)) <= tol:
+                            bad.append("covar_matrix[%d,%d]=%r vs exact %r after %d of %d samples" % (a, b, cm[a, b], float(sh.cov), m, n))
+                        if scm is not None and not abs(scm[a, b] - float(sh.cov) * m / (m - 1)) <= tol * m / (m - 1) * 1.01:
+                            bad.append("sample_covar_matrix[%d,%d]=%r vs exact %r after %d of %d samples" % (
+                                a, b, scm[a, b], float(sh.cov) * m / (m - 1), m, n))
+                        if cm[a, b] != cm[b, a]:
+                            bad.append("covar_matrix not symmetric at %d,%d" % (a, b))
+                ctx.count("matrix_readouts_judged")
+                return cm
+
+            crng = ctx.rng("chunks", case["sseed"])
+            if case["feed"] == "single":
+                stops = set(crng.sample(range(1, n + 1), min(n, 3))) | {n}
+                for i, row in enumerate(zip(*series)):
+                    rcm.update(*row)
+                    if i + 1 in stops and not bad:
+                        cm = judge_prefix(i + 1)
+            else:
+                # chunks of random sizes, fed through update_from_it (re-iterable chunks: the matrix walks each chunk once per pair) or one by one, read in between
+                cuts = sorted(set(crng.sample(range(1, n), min(n - 1, crng.randint(1, 3))))) if n > 1 else []
+                lo = 0
+                for hi in cuts + [n]:
+                    how = crng.choice(["it", "it", "tuple", "single"])
+                    if how == "it":
+                        rcm.update_from_it(*[s[lo:hi] for s in series])
+                    elif how == "tuple":
+                        rcm.update_from_it(*[tuple(s[lo:hi]) for s in series])
+                    else:
+                        for row in zip(*[s[lo:hi] for s in series]):
+                            rcm.update(*row)
+                    lo = hi
+                    if not bad:
+                        cm = judge_prefix(hi)
+                    ctx.count("matrix_chunks_fed")
             for msg in bad[:2]:
                 ctx.violation(case, msg, dict(sig, oracle="matrix", quantity=msg.split("[")[0]))
             summary = (rcm.count, [[float(v) for v in r] for r in cm][:2])
